@@ -715,11 +715,12 @@ def check_ram(chk, tier, pool):
                        model='exit by %s at %s after the store was modified by %s\n%s' % (o.exc, o.origin, sorted(o.state[1]), '\n'.join(PA.format_trace(o, 60))),
                        replay={'driver': 'replay/c10_replay.py ram_partial', 'path': PA.format_trace(o, 60)}, reproduced=None)
     elif inside:
+        res, raw = pool.get('ram_partial') if finding is not None else (None, '')
+        if finding is not None and not (res and res.get('reproduced')):
+            chk.note('NOTE: recorded finding %s is stale (its witness no longer reproduces); it suppresses nothing.' % name)
+            finding = None
         if finding is not None:
-            res, raw = pool.get('ram_partial')
-            if res is None or not res.get('reproduced'):
-                chk.error(name + '.stale_finding', 'recorded finding 7 (RAM partial update) is not reproduced by its witness: %s' % (raw[-600:],))
-            else:
+            if True:
                 detail['witness_replay'] = res
                 chk.obligation(name, fq, 'paths', report.KNOWN, dt, detail=detail, finding=finding['what'])
                 chk.obligation(name + '.residual', fq, 'paths', report.PROVED, 0.0,
@@ -1032,7 +1033,7 @@ def check_servicer(chk, tier, ram, pool):
                 if f is not None and exact:
                     res, raw = pool.get(f['witness']['args'][0])
                     if res is None or not res.get('reproduced'):
-                        chk.error(name + '.stale_finding', 'recorded finding is not reproduced by its witness: %s' % raw[-500:])
+                        chk.note('NOTE: recorded finding %s is stale (its witness no longer reproduces); it suppresses nothing.' % name)
                     else:
                         known[name] = f['what']
     opened = [n for n in c.open_names() if n not in known]
@@ -1558,6 +1559,7 @@ def main(tier):
               'protobuf runtime semantics as modelled in pyvc/protomodel.py (repeated-field extend copies the messages)',
               'logging has no effect'):
         chk.assume(a)
+    ckit.arm_deadline(chk, 420 if tier == 'quick' else 2400)
     pool = ckit.ReplayPool()
     for key in ('ram_partial', 'servicer_join', 'trial_id_zero', 'metadata_core', 'inram_update_metadata', 'sql_effect'):
         pool.start(key, 'c10_replay.py', [key])
@@ -1572,4 +1574,4 @@ def main(tier):
     check_policy_frame(chk, tier)
     check_sql_effect(chk, tier, pool)
     check_namespace(chk, tier, pool)
-    return chk.finish(min_obligations=10)
+    return ckit.leave(chk.finish(min_obligations=10))
